@@ -297,15 +297,22 @@ def project_emission(x, cfg, res, escaped):
     c = {'iface': 'asgi' if asgi else ('wsgifw' if req.get('file_wrapper') else 'wsgi'),
          'code': res.status if isinstance(res.status, int) else -1, 'form': 'int', 'method': asc(method),
          'text': text, 'data': data, 'media': media, 'stream': stream, 'chunks': chunks, 'sse': sse,
+         'sk': [1] * max(sse, 0),       # every block an SSE response consists of counts as one item of the emitter
          'cl': -1, 'ct': ct == 'app', 'fk': 'render' if render_fault else 'none', 'fa': 1, 'err': -1}
 
-    def evt(k, n=0, more=True, cl=-1, ctc=''):
-        return {'k': k, 'n': n, 'more': bool(more), 'src': '', 'idx': -1, 'cl': cl, 'ct': ctc}
+    def evt(k, n=0, more=True, cl=-1, ctc='', sl=True):
+        return {'k': k, 'n': n, 'more': bool(more), 'src': '', 'idx': -1, 'cl': cl, 'ct': ctc, 'sl': bool(sl)}
 
     def int31(s):
         return int(s) if s.isdigit() and len(s) < 10 else -3
 
-    start = evt('start', cl=(-1 if not cls else (int31(cls[0]) if len(cls) == 1 else -3)), ctc=ct)
+    # the status exactly as it was handed to the server (ResponseEmit: sl): on WSGI a native string
+    # "DDD SP reason-phrase" (PEP 3333), on ASGI an int 100..999 - the reading of checks/c05.py
+    if asgi:
+        sl = isinstance(res.status, int) and not isinstance(res.status, bool) and 100 <= res.status <= 999
+    else:
+        sl = isinstance(res.status_line, str) and re.fullmatch(r'[1-9][0-9][0-9] [^\r\n]*', res.status_line) is not None
+    start = evt('start', cl=(-1 if not cls else (int31(cls[0]) if len(cls) == 1 else -3)), ctc=ct, sl=sl)
     ev = []
     if asgi:
         for e in res.events:
@@ -398,7 +405,8 @@ def project_headers(x, res):
 
 
 FIELD = re.compile(r'\{([A-Za-z_][A-Za-z0-9_]*)\}\Z')
-SINK_TOKEN = re.compile(r'\(\?P<([A-Za-z_][A-Za-z0-9_]*)>(\\d\+|\[\^/\]\+)\)|\\([^A-Za-z0-9])|([A-Za-z0-9_/\-~ ,:;=@!%&\'"<>#])')
+SINK_TOKEN = re.compile(r'\(\?P<([A-Za-z_][A-Za-z0-9_]*)>(\\d\+|\[\^/\]\+)\)|\((\\d\+|\[\^/\]\+)\)|\\([^A-Za-z0-9])|'
+                        r'([A-Za-z0-9_/\-~ ,:;=@!%&\'"<>#])')
 
 
 def parse_template(path):
@@ -417,29 +425,34 @@ def parse_template(path):
     return out
 
 
-def parse_sink(pattern):
-    """a sink prefix -> Dispatch's sink tokens (literal text, (?P<n>\\d+), (?P<n>[^/]+)); None outside"""
+def parse_sink(pattern, flags=None):
+    """a sink prefix -> Dispatch's sink tokens: literal text, (?P<n>\\d+), (?P<n>[^/]+), (\\d+), ([^/]+), and the
+    flags token for IGNORECASE; None outside.  (Whether a group is followed by what Dispatch!WellFormedSink asks
+    for is decided by that operator, in SuiteTrace.)"""
     if not isinstance(pattern, str):
         return None
+    if flags is not None and (not isinstance(flags, int) or flags & ~(re.UNICODE | re.IGNORECASE)):
+        return None                # VERBOSE, DOTALL, ... change how the pattern text is to be read
     toks, lit, p = [], '', 0
     while p < len(pattern):
         m = SINK_TOKEN.match(pattern, p)
         if not m:
             return None
-        if m.group(1):
+        if m.group(1) or m.group(3):
             if lit:
                 toks.append({'k': 'lit', 's': cps(lit)})
                 lit = ''
-            toks.append({'k': 'digits' if m.group(2) == '\\d+' else 'seg', 's': cps(m.group(1))})
+            if m.group(1):
+                toks.append({'k': 'digits' if m.group(2) == '\\d+' else 'seg', 's': cps(m.group(1))})
+            else:
+                toks.append({'k': 'udigits' if m.group(3) == '\\d+' else 'useg', 's': []})
         else:
-            lit += m.group(3) or m.group(4)
+            lit += m.group(4) or m.group(5)
         p = m.end()
     if lit:
         toks.append({'k': 'lit', 's': cps(lit)})
-    # a group is followed by the end of the pattern or by a literal starting with "/" (Dispatch.tla)
-    for i, t in enumerate(toks[:-1]):
-        if t['k'] != 'lit' and (toks[i + 1]['k'] != 'lit' or toks[i + 1]['s'][:1] != [47]):
-            return None
+    if flags is not None and flags & re.IGNORECASE:
+        toks.insert(0, {'k': 'flags', 's': cps('i')})
     return toks
 
 
@@ -484,7 +497,7 @@ def project_dispatch(x, cfg, res):
     asm = []
     for a in cfg.get('asm', []):
         if a.get('kind') == 'sink':
-            toks = parse_sink(a.get('pattern'))
+            toks = parse_sink(a.get('pattern'), a.get('flags'))
             if toks is None:
                 sinkok = False
                 toks = []
@@ -702,6 +715,7 @@ def selftest(ctx, items, verdicts):
         a = copy.deepcopy(t); a['ev'].insert(1, dict(a['ev'][0])); cases.append(('E', 'P:ExactlyOneStart', a))
         a = copy.deepcopy(t); a['c']['method'] = 'HEAD'; cases.append(('E', 'P:BodilessHaveNoBytes', a))
         a = copy.deepcopy(t); a['ev'][0]['ct'] = 'none'; cases.append(('E', 'P:OthersHaveType', a))
+        a = copy.deepcopy(t); a['ev'][0]['sl'] = False; cases.append(('E', 'P:StatusLineWellFormed', a))
         a = copy.deepcopy(t); a['pieces'] = [['data', 0]]; cases.append(('E', 'P:Precedence', a))
         a = copy.deepcopy(t); a['errors'] = 1; cases.append(('E', 'P:Protocol', a))
     t = first(lambda t, v: v['E'] == 'ok' and t['c']['iface'] == 'asgi' and len(t['ev']) == 2 and t['ev'][1]['n'] > 0)
